@@ -13,16 +13,22 @@ def run_impl(streams, hooks=None):
         flat.append({"op": "reset"})
         outs.append({"outcome": "ok", "store": {}})
         for oi, op in enumerate(ops):
-            before = None
-            if hooks:
-                before = {k: v for k, v in st.objs.items()}
+            pres = []
+            for h in hooks or []:
+                try:
+                    pres.append(h.pre(op, st))
+                except Exception:  # an oracle that cannot read a broken object skips this step
+                    pres.append(None)
             line = st.apply(op)
             flat.append(op)
             outs.append(line)
             if hooks:
-                for h in hooks:
-                    msg = h(op, st, line, before)
-                    if msg:
+                for h, pre in zip(hooks, pres):
+                    try:
+                        msgs = h.post(op, st, line, pre) or []
+                    except Exception:
+                        msgs = []
+                    for msg in msgs:
                         findings.append({"stream": si, "op_index": oi, "clause": msg, "ops": ops[: oi + 1]})
         spans.append((start, len(flat)))
     return flat, outs, spans, findings
